@@ -73,6 +73,7 @@ Definition future_report (today name : bytes) : bool :=
    counter), the names in upload/ ---- *)
 Record lfile := { lf_name : bytes; lf_span : option (Z * Z); lf_counts : bool }.
 Record fstate := { fs_mode : option bytes; fs_local : option (list lfile); fs_upload : option (list bytes) }.
+Record dirs := { d_local : option (list lfile); d_upload : option (list bytes) }.
 
 Inductive effect :=
 | EReadDirLocal | EReadMode | EReadCount (n : bytes) | EReadDirUpload | EMkdirUpload
@@ -147,25 +148,28 @@ Definition upload_ok (mode : bytes) (asof : option Z) (start : Z) (expiry : byte
    for a date (0: transport error) *)
 Record runcfg := { rc_start : Z; rc_x : bytes -> R; rc_rate : R; rc_resp : bytes -> Z }.
 
-Definition find_work (fs : fstate) (start : Z) : work * list effect * fstate :=
-  match fs_local fs with
-  | None => ({| w_count := []; w_ready := []; w_uploaded := None |}, [EReadDirLocal], fs)
+(* The uploader reads the mode file three times (findWork, reports,
+   createReport); the model reads one unchanging file, so the three reads give
+   the same (mode, asof): the functions below take them as parameters and
+   [run] supplies mode_of / asof_of of the file.  A mode change during a run
+   is outside the model. *)
+Definition find_work (mode : bytes) (asof : option Z) (d : dirs) (start : Z) : work * list effect * dirs :=
+  match d_local d with
+  | None => ({| w_count := []; w_ready := []; w_uploaded := None |}, [EReadDirLocal], d)
   | Some l =>
-      let mode := mode_of (fs_mode fs) in
-      let asof := asof_of (fs_mode fs) in
       let cnt := filter (collectable start) l in
       let rdy := map lf_name (filter (fun f => ready_report mode asof (lf_name f)) l) in
       let reads := map (fun f => EReadCount (lf_name f))
                        (filter (fun f => has_suffix (lf_name f) count_suffix) l) in
-      match fs_upload fs with
+      match d_upload d with
       | None =>
           ({| w_count := cnt; w_ready := rdy; w_uploaded := None |},
            [EReadDirLocal; EReadMode] ++ reads ++ [EReadDirUpload; EMkdirUpload],
-           {| fs_mode := fs_mode fs; fs_local := fs_local fs; fs_upload := Some [] |})
+           {| d_local := d_local d; d_upload := Some [] |})
       | Some u =>
           ({| w_count := cnt; w_ready := rdy;
               w_uploaded := Some (filter (fun n => has_suffix n json_suffix) u) |},
-           [EReadDirLocal; EReadMode] ++ reads ++ [EReadDirUpload], fs)
+           [EReadDirLocal; EReadMode] ++ reads ++ [EReadDirUpload], d)
       end
   end.
 
@@ -173,9 +177,9 @@ Definition remove_all (l : list lfile) (names : list bytes) : list lfile := fold
 
 (* createReport(earliest, expiry, files, lastWeek): the upload report name when
    one was written, the effects, the new content of local/ *)
-Definition create_report (cfg : runcfg) (modefile : option bytes) (l : list lfile) (g : group)
+Definition create_report (mode : bytes) (asof : option Z) (cfg : runcfg) (l : list lfile) (g : group)
   : option bytes * list effect * list lfile :=
-  let ok := upload_ok (mode_of modefile) (asof_of modefile) (rc_start cfg) (g_exp g) (g_earliest g)
+  let ok := upload_ok mode asof (rc_start cfg) (g_exp g) (g_earliest g)
                       (rc_x cfg (g_exp g)) (rc_rate cfg) in
   let names := map lf_name (g_files g) in
   let removes := map ERemoveLocal names in
@@ -195,7 +199,7 @@ Definition create_report (cfg : runcfg) (modefile : option bytes) (l : list lfil
 
 (* the loop over countFiles in reports() (Go iterates the map in random
    order; the decisions for different weeks do not depend on each other) *)
-Fixpoint reports_loop (cfg : runcfg) (modefile : option bytes) (uploaded : option (list bytes))
+Fixpoint reports_loop (mode : bytes) (asof : option Z) (cfg : runcfg) (uploaded : option (list bytes))
          (gs : list group) (l : list lfile) (ready : list bytes)
   : list bytes * list effect * list lfile :=
   match gs with
@@ -203,85 +207,91 @@ Fixpoint reports_loop (cfg : runcfg) (modefile : option bytes) (uploaded : optio
   | g :: gs' =>
       if not_needed (g_exp g) uploaded ready then
         let names := map lf_name (g_files g) in
-        let '(r, e, l') := reports_loop cfg modefile uploaded gs' (remove_all l names) ready in
+        let '(r, e, l') := reports_loop mode asof cfg uploaded gs' (remove_all l names) ready in
         (r, map ERemoveLocal names ++ e, l')
       else
-        let '(nm, e1, l1) := create_report cfg modefile l g in
+        let '(nm, e1, l1) := create_report mode asof cfg l g in
         let ready' := match nm with Some n => ready ++ [n] | None => ready end in
-        let '(r, e2, l2) := reports_loop cfg modefile uploaded gs' l1 ready' in
+        let '(r, e2, l2) := reports_loop mode asof cfg uploaded gs' l1 ready' in
         (r, e1 ++ e2, l2)
   end.
 
-Definition reports (cfg : runcfg) (fs : fstate) (w : work) : list bytes * list effect * fstate :=
-  if beq (mode_of (fs_mode fs)) m_off then ([], [EReadMode], fs)
+Definition reports (mode : bytes) (asof : option Z) (cfg : runcfg) (d : dirs) (w : work)
+  : list bytes * list effect * dirs :=
+  if beq mode m_off then ([], [EReadMode], d)
   else
-    match fs_local fs with
-    | None => (w_ready w, [EReadMode], fs)
+    match d_local d with
+    | None => (w_ready w, [EReadMode], d)
     | Some l =>
-        let '(r, e, l') := reports_loop cfg (fs_mode fs) (w_uploaded w)
+        let '(r, e, l') := reports_loop mode asof cfg (w_uploaded w)
                                         (groups_of (rc_start cfg) (w_count w)) l (w_ready w) in
-        (r, EReadMode :: e, {| fs_mode := fs_mode fs; fs_local := Some l'; fs_upload := fs_upload fs |})
+        (r, EReadMode :: e, {| d_local := Some l'; d_upload := d_upload d |})
     end.
 
 (* uploadReport + uploadReportContents for one ready name.
    Result: panicked?, effects, new state *)
-Definition upload_one (cfg : runcfg) (today : bytes) (name : bytes) (fs : fstate)
-  : bool * list effect * fstate :=
-  if future_report today name then (false, [], fs)
+Definition upload_one (cfg : runcfg) (today : bytes) (name : bytes) (d : dirs)
+  : bool * list effect * dirs :=
+  if future_report today name then (false, [], d)
   else
-    match fs_local fs with
-    | None => (false, [EReadLocal name], fs)
+    match d_local d with
+    | None => (false, [EReadLocal name], d)
     | Some l =>
-        if negb (local_has l name) then (false, [EReadLocal name], fs)
+        if negb (local_has l name) then (false, [EReadLocal name], d)
         else
           let base := trim_suffix name json_suffix in
-          if (length base <? 10)%nat then (true, [EReadLocal name; EPanic], fs)
+          if (length base <? 10)%nat then (true, [EReadLocal name; EPanic], d)
           else
             let fdate := last_n 10 base in
             let newname := fdate ++ json_suffix in
             let lockname := newname ++ lock_suffix in
-            match fs_upload fs with
-            | None => (false, [EReadLocal name], fs)
+            match d_upload d with
+            | None => (false, [EReadLocal name], d)
             | Some u =>
-                if names_has u lockname then (false, [EReadLocal name], fs)
+                if names_has u lockname then (false, [EReadLocal name], d)
                 else if names_has u newname then
                   (false, [EReadLocal name; ELock lockname; EStatUpload newname; ERemoveLocal name; EUnlock lockname],
-                   {| fs_mode := fs_mode fs; fs_local := Some (local_remove l name); fs_upload := Some u |})
+                   {| d_local := Some (local_remove l name); d_upload := Some u |})
                 else
                   let status := rc_resp cfg fdate in
                   let pre := [EReadLocal name; ELock lockname; EStatUpload newname; EPost fdate name] in
                   if status =? 200 then
                     (false, pre ++ [EWriteUpload newname; ERemoveLocal name; EUnlock lockname],
-                     {| fs_mode := fs_mode fs; fs_local := Some (local_remove l name);
-                        fs_upload := Some (u ++ [newname]) |})
+                     {| d_local := Some (local_remove l name); d_upload := Some (u ++ [newname]) |})
                   else if (400 <=? status) && (status <? 500) then
                     (false, pre ++ [ERemoveLocal name; EUnlock lockname],
-                     {| fs_mode := fs_mode fs; fs_local := Some (local_remove l name); fs_upload := Some u |})
-                  else (false, pre ++ [EUnlock lockname], fs)
+                     {| d_local := Some (local_remove l name); d_upload := Some u |})
+                  else (false, pre ++ [EUnlock lockname], d)
             end
     end.
 
-Fixpoint upload_all (cfg : runcfg) (today : bytes) (ready : list bytes) (fs : fstate)
-  : list effect * fstate :=
+Fixpoint upload_all (cfg : runcfg) (today : bytes) (ready : list bytes) (d : dirs)
+  : list effect * dirs :=
   match ready with
-  | [] => ([], fs)
+  | [] => ([], d)
   | r :: rest =>
-      let '(panicked, e, fs') := upload_one cfg today r fs in
-      if panicked then (e, fs')
-      else let '(e2, fs2) := upload_all cfg today rest fs' in (e ++ e2, fs2)
+      let '(panicked, e, d') := upload_one cfg today r d in
+      if panicked then (e, d')
+      else let '(e2, d2) := upload_all cfg today rest d' in (e ++ e2, d2)
   end.
 
-(* uploader.Run *)
-Definition run (cfg : runcfg) (fs : fstate) : list effect * fstate :=
-  let '(w, e1, fs1) := find_work fs (rc_start cfg) in
-  let '(ready, e2, fs2) := reports cfg fs1 w in
-  let '(e3, fs3) := upload_all cfg (today_of (rc_start cfg)) ready fs2 in
-  (e1 ++ e2 ++ e3, fs3).
+(* the list of reports handed to the upload loop *)
+Definition ready_list (mode : bytes) (asof : option Z) (cfg : runcfg) (d : dirs) : list bytes :=
+  let '(w, _, d1) := find_work mode asof d (rc_start cfg) in
+  let '(ready, _, _) := reports mode asof cfg d1 w in ready.
 
-(* the list of reports handed to the upload loop (for the statements) *)
-Definition ready_list (cfg : runcfg) (fs : fstate) : list bytes :=
-  let '(w, _, fs1) := find_work fs (rc_start cfg) in
-  let '(ready, _, _) := reports cfg fs1 w in ready.
+(* uploader.Run for a given reading (mode, asof) of the mode file *)
+Definition run_ma (mode : bytes) (asof : option Z) (cfg : runcfg) (d : dirs) : list effect * dirs :=
+  let '(w, e1, d1) := find_work mode asof d (rc_start cfg) in
+  let '(ready, e2, d2) := reports mode asof cfg d1 w in
+  let '(e3, d3) := upload_all cfg (today_of (rc_start cfg)) ready d2 in
+  (e1 ++ e2 ++ e3, d3).
+
+Definition dirs_of (fs : fstate) : dirs := {| d_local := fs_local fs; d_upload := fs_upload fs |}.
+
+Definition run (cfg : runcfg) (fs : fstate) : list effect * fstate :=
+  let '(e, d) := run_ma (mode_of (fs_mode fs)) (asof_of (fs_mode fs)) cfg (dirs_of fs) in
+  (e, {| fs_mode := fs_mode fs; fs_local := d_local d; fs_upload := d_upload d |}).
 
 (* ---- the counter package's side: Open reads the mode once ---- *)
 Inductive pstate := PUnopened | PDisabled | PMapped.
